@@ -142,9 +142,9 @@ Fixpoint parse_when (fuel : nat) (s : str) : ptree :=
               let c := trim_start ws_unicode clause in
               if first_is c 33 then PNot (parse_when fu (trim ws_unicode (tl c)))
               else
-                (* parse_single_condition: one more pair of outer parentheses is dropped *)
+                (* parse_single_condition: one more pair of outer parentheses is dropped - a pair that matches each other (repair) *)
                 let c1 := trim ws_unicode clause in
-                PLeaf (if first_is c1 40 && last_is c1 41 then trim ws_unicode (strip_ends c1) else c1)
+                PLeaf (if first_is c1 40 && last_is c1 41 && balanced (strip_ends c1) 0 then trim ws_unicode (strip_ends c1) else c1)
           end
       end
   end.
